@@ -100,6 +100,12 @@ fn cause(case: &QCase, obs: &QObs, clause: &str) -> &'static str {
         _ => 0,
     };
     if clause == K {
+        // the engine finds the operator of a goal pattern with `str::find` over the whole text,
+        // trying `>=` and `<=` before `==`: a token inside the quoted literal is taken for the
+        // operator
+        if has_op_token(&case.goal.lit) {
+            return "operator-token-inside-string-literal-of-goal";
+        }
         // the engine turns the text `field == 5` of a goal or sub-goal into a comparison against
         // the float 5.0, which no Integer fact or conclusion equals. Atoms that can become such a
         // pattern: the goal itself, and rule-condition atoms on a field that some rule concludes
@@ -109,7 +115,13 @@ fn cause(case: &QCase, obs: &QObs, clause: &str) -> &'static str {
         }
         return "unexplained";
     }
-    // S1 / S2
+    if clause == S2 {
+        // every defect known so far hands back facts in which the goal is false (S1 fires
+        // first); an answer that holds on the returned facts but is outside the closure has no
+        // listed explanation
+        return "unexplained";
+    }
+    // S1
     if case.cfg.max_solutions > 1 {
         // (the shrinker has already tried max_solutions = 1)
         return "multi-solution-search-rolls-back-the-solution-it-reports";
@@ -119,6 +131,9 @@ fn cause(case: &QCase, obs: &QObs, clause: &str) -> &'static str {
         // the facts`, so a recorded solution next to returned facts that do not satisfy the goal
         // was recorded for another (sub-)goal
         return "solution-recorded-for-a-subgoal-counted-for-the-failed-parent";
+    }
+    if has_op_token(&case.goal.lit) {
+        return "operator-token-inside-string-literal-of-goal";
     }
     if is_int_eq(&case.goal) {
         // no solution recorded: the goal was accepted by the direct check against the facts,
@@ -509,7 +524,7 @@ impl Check for C09 {
         ));
 
         // ---- random ----
-        let kbs_per_shard = cli.n(800, 60_000);
+        let kbs_per_shard = cli.n(800, 20_000);
         shards(cli, nthreads, st, |_shard, rng, st| {
             for _ in 0..kbs_per_shard {
                 if cli.expired() {
@@ -553,6 +568,9 @@ impl Check for C09 {
         if case.get("miri").is_some() {
             let mut st = Stats::new();
             run_miri(_cli, &mut st);
+            for w in &st.inconclusive {
+                err!("C09 replay (miri): inconclusive: {}", w);
+            }
             return st.violations;
         }
         let Some(c) = QCase::from_json(case) else {
